@@ -6,7 +6,7 @@ sys.path.insert(0, ROOT)
 from vlib import tlc
 
 def ok(t): return {"k": "ok", "v": t}
-def begin(kind, style, prec, case): return {"ev": "Begin", "inp": {"kind": kind, "style": style, "prec": prec}, "case": case}
+def begin(kind, style, prec, case): return {"ev": "Begin", "inp": {"kind": kind, "style": style, "prec": prec, "bytes": "bom" if case == 0 else "plain"}, "case": case}
 def call(entry, res, case): return {"ev": "Call", "entry": entry, "res": res, "case": case}
 
 def run():
